@@ -8,6 +8,9 @@
 (*   dim   : one per unit string: the dimensional call (keywords KwD)      *)
 (*   focus : one per option that is set: both calls again WITHOUT that     *)
 (*           option (the other keywords unchanged)                         *)
+(* A trace id holds up to three blocks twin/dim...: the cell's object, a   *)
+(* second species of the same name with another stoichiometry, and the     *)
+(* first object again at another temperature.                              *)
 (* `st` carries the twin line and the previous successful dim line of the  *)
 (* trace id.  Values are sequences (length 1 for scalars; arrays of T and  *)
 (* the verbose vector are judged element by element).  R comes from the    *)
@@ -17,7 +20,7 @@
 (***************************************************************************)
 EXTENDS Dec, TLC, TLCExt, Json, IOUtils
 
-UW == INSTANCE UnitsWrap WITH Variant <- "required", pc <- "call", cell <- 0, unit <- 0, res <- 0
+UW == INSTANCE UnitsWrap WITH Variant <- "required", ShomateOwn <- {}, ClassFilter <- {}, pc <- "call", cell <- 0, unit <- 0, res <- 0
 
 TraceLog == ndJsonDeserialize(IOEnv.TRACE_FILE)
 VARIABLES l, st
@@ -31,12 +34,13 @@ KnownUnit(e) == U(e) \in UW!Units
 Rspec(e) == UW!RTable[UW!RKey(U(e))]
 
 \* molar mass [g/mol] from the composition and the weights logged with the twin line
-MolarMass(t) == Add(Add(Mul(I(t.comp.H), t.aw.H), Mul(I(t.comp.N), t.aw.N)), Mul(I(t.comp.O), t.aw.O))
+MolarMass(t) == Add(Add(Mul(t.comp.H, t.aw.H), Mul(t.comp.N, t.aw.N)), Mul(t.comp.O, t.aw.O))
 \* mass of one mole in the mass unit of u (1 for molar / per-molecule units)
 MassFactor(t, e) == CASE e.per = "g"  -> MolarMass(t)
                       [] e.per = "kg" -> Mul(MolarMass(t), <<1, -3>>)
                       [] OTHER        -> One
-HasComposition(t) == t.comp.H + t.comp.N + t.comp.O > 0
+\* counts are Dec (integers, zeros and floats are all accepted by the library)
+HasComposition(t) == ~(IsZero(t.comp.H) /\ IsZero(t.comp.N) /\ IsZero(t.comp.O))
 
 Tat(t, i) == IF Len(t.T) = 1 THEN t.T[1] ELSE t.T[i]
 \* XoR[i] * R * (T[i] for energies)
@@ -73,6 +77,8 @@ DimClauses(e) ==
    ELSE
    (IF e.ustr = UW!UnitStr(U(e), st.twin.energy) THEN {} ELSE {"UnitString"})
    \cup (IF e.per \in {"g", "kg"} /\ ~HasComposition(st.twin) THEN {"CaseBinding"} ELSE {})
+   \* the caller's temperature (array) still holds what it held before the calls
+   \cup (IF e.Tnow = st.twin.T THEN {} ELSE {"InputUntouched"})
    \cup
    (IF ~st.twin.ok THEN {}                                   \* no dimensionless value: nothing is demanded
     ELSE IF ~e.ok THEN {"Raises"}
